@@ -77,3 +77,9 @@ impl<'a, 'f: 'a> DebugFlags<'a, 'f> {
         self.result.and_then(|()| write!(self.fmt, ")"))
     }
 }
+
+#[cfg(feature = "verif")]
+#[allow(missing_docs, dead_code, unused_imports)]
+pub(crate) mod verif_h {
+    include!(concat!(env!("H2_VERIF_DIR"), "/harness/frame/util.rs"));
+}
